@@ -298,6 +298,22 @@ def subAdd : SubMap → String → String → SubMap
 def extraSubs (rules : List Rule) : SubMap :=
   rules.foldl (fun acc rule => rule.foldl (fun a s => subAdd a s.1 s.2) acc) []
 
+/-- `compile_variable_features` (variable fonts whose master features are compatible: the features are compiled once, by
+`VariableFeatureCompiler`): its own copy of the same loop over the (sub-)designspace's rules, passed as
+`extraSubstitutions=` to the feature compiler. -/
+def extraSubsVariable (rules : List Rule) : SubMap :=
+  rules.foldl (fun acc rule => rule.foldl (fun a s => subAdd a s.1 s.2) acc) []
+
+/-- which feature compiler serves the writers: per-master `FeatureCompiler`s (given the compiler object's
+`extraSubstitutions`) or the single `VariableFeatureCompiler` -/
+inductive Path | masters | variable
+  deriving DecidableEq, Repr
+
+/-- what `BaseFeatureWriter.extraSubstitutions()` returns to a writer on each path -/
+def writersExtra : Path → List Rule → SubMap
+  | .masters, rules => extraSubs rules
+  | .variable, rules => extraSubsVariable rules
+
 /-- `extra_substitutions.get(glyph, set())` -/
 def extraGet (m : SubMap) (g : String) : List String := (alookup g m).getD []
 
